@@ -15,6 +15,7 @@ func relayProfileC01(tier string) RelayProfile {
 		Republish:      0.2,
 		HeaderChange:   0.1,
 		TsWeird:        0.3,
+		NalKinds:       0.1,
 		BigUnits:       0.15,
 		ZeroLen:        0.03,
 		ShapeAudioOnly: 0.15,
